@@ -1,16 +1,16 @@
-\* C02: two pollers (+ workers), two ids, i1 queued twice, retry-then-ok bodies
+\* C03 fault-free: two pollers+workers, same concurrency key (CC / reroute paths)
 SPECIFICATION Spec
 CONSTANTS
   Inv = {"i1", "i2"}
   Runner = {"r1", "r2"}
   Client = {"c1"}
-  Key <- KeyNone
-  Mode = "disabled"
+  Key <- KeySame
+  Mode = "task"
   RerouteOnCC = TRUE
   MaxRetries = 1
   Outcome <- AllOk
-  Submissions <- SubDupQ
-  PollN = 2
+  Submissions <- SubMix
+  PollN = 1
   Pollers = {"r1", "r2"}
   Recoverers = {}
   Stoppable = {}
@@ -19,10 +19,10 @@ CONSTANTS
   RecoveryAbortsOnLostRace = FALSE
 CONSTRAINT Bounded
 INVARIANT TypeOK
-INVARIANT NoParallelBody
+INVARIANT NoStranded
 INVARIANT SuccessHasResult
+INVARIANT FailedHasException
 INVARIANT ChangeLogIsPath
+INVARIANT StoppedLeavesNothing
 PROPERTY CoreFollowsEdge
 PROPERTY CoreFinalAbsorbing
-PROPERTY ClaimsAlternate
-PROPERTY OnlyOwnerMoves
